@@ -226,7 +226,7 @@ class FTPFile(io.RawIOBase):
     def read(self, size=-1):
         # type: (int) -> bytes
         if not self.mode.reading:
-            raise IOError("File not open for reading")
+            raise io.UnsupportedOperation("File not open for reading")
 
         chunks = []
         remaining = size
@@ -281,7 +281,7 @@ class FTPFile(io.RawIOBase):
     def write(self, data):
         # type: (Union[bytes, memoryview, array.array[Any], mmap.mmap]) -> int
         if not self.mode.writing:
-            raise IOError("File not open for writing")
+            raise io.UnsupportedOperation("File not open for writing")
 
         if isinstance(data, array.array):
             data = data.tobytes()
@@ -307,7 +307,7 @@ class FTPFile(io.RawIOBase):
     def writelines(self, lines):
         # type: (Iterable[Union[bytes, memoryview, array.array[Any], mmap.mmap]]) -> None  # noqa: E501
         if not self.mode.writing:
-            raise IOError("File not open for writing")
+            raise io.UnsupportedOperation("File not open for writing")
         data = bytearray()
         for line in lines:
             if isinstance(line, array.array):
@@ -319,6 +319,8 @@ class FTPFile(io.RawIOBase):
     def truncate(self, size=None):
         # type: (Optional[int]) -> int
         # Inefficient, but I don't know if truncate is possible with ftp
+        if not self.mode.writing:
+            raise io.UnsupportedOperation("File not open for writing")
         with self._lock:
             if size is None:
                 size = self.tell()
@@ -339,6 +341,8 @@ class FTPFile(io.RawIOBase):
         _whence = int(whence)
         if _whence not in (Seek.set, Seek.current, Seek.end):
             raise ValueError("invalid value for whence")
+        if _whence == Seek.set and pos < 0:
+            raise ValueError("negative seek position {!r}".format(pos))
         with self._lock:
             if self._write_conn is not None:
                 # Complete the pending upload first (as close does), so
